@@ -102,6 +102,45 @@ CLAIMS = {
              'dynamically (sentinel differential), not by a Lean data-flow theorem here (see C17); several recorded findings',
         tech='Lean 4 proof over a hand-written life-cycle model with as-found/repaired variants + history correspondence',
         ref='5 C19'),
+    'C04': dict(
+        text='Lean 4 theorems about the estimators regenerated from the family files: Gaussian fit = (mean, population std) with '
+             'scale > 0 iff non-constant, Uniform fit = (min, range) with all data in the support, Beta start values, the '
+             'return-tuple -> dict key maps of the four scipy-MLE families (decide), TruncatedGaussian a/b give exactly the '
+             'user/default bounds, SLSQP set-up incl. the (max-min)^2 scale cap with its counter-example, KDE is '
+             'gaussian_kde(dataset, bw_method, weights) of the stored dataset (or a resample), executable kernel estimate '
+             'with Scott/Silverman/scalar factors, non-negative and integrating to 1.',
+        note='DKW-style closeness of scipy optimiser output is statistical: thorough search only (exact binomial rule at 1e-9); '
+             'numpy pairwise summation vs left fold compared within 4n ulp; two recorded findings',
+        tech='Lean 4 proof over translator-regenerated estimators + bit-exact param-map correspondence', ref='5 C04'),
+    'C11': dict(
+        text='Lean 4 theorems about select_copula: the result is one of the candidates and is Frank for tau <= 0; every '
+             'candidate shares the Frank-fit tau and carries its family calibration, refused candidates absent; the '
+             'z_right[k] access never fails and equals base[k] for every dataset and increasing grid; descending average '
+             'ranks, score sum and first arg-max (ties to the earliest of Frank, Clayton, Gumbel); tail-concentration formulas '
+             'and grid regenerated from the source; tied end to end and stage-wise to the real function and its deprecated alias.',
+        note='family recovery >= 70% is statistical (deep search only); the real code evaluates part of the curves in float32 '
+             '(NEP 50), so curve comparisons use rtol 1e-6 and near-ties are accepted either way',
+        tech='Lean 4 proof over a hand model + generated formulas, staged correspondence', ref='5 C11'),
+    'C13': dict(
+        text='Lean 4 theorems about the container normalisation regenerated from _transform_to_normal: the score plan is '
+             'invariant under every column permutation and equal for Series / 1-d / 2-d array forms, row-independent, ignores '
+             'extra columns, has the training width; pdf/cdf/log-pdf inherit it; log pdf = log(pdf); scores monotone in each '
+             'coordinate given monotone marginals, cdf in [0,1] and coordinate-wise monotone given the MVN CDF spec; pdf and '
+             'cdf defined for singular correlations (allow_singular on both); executable Cholesky MVN density positive.',
+        note='scipy multivariate_normal pdf/cdf are external symbols (cdf is QMC: never compared tighter than 1e-3); '
+             'Cholesky success for every PD matrix proved only for d <= 2',
+        tech='Lean 4 proof over plan terms from a translator-regenerated model + bit-exact plan interpretation', ref='5 C13'),
+    'C14': dict(
+        text='Lean 4 theorems about dict models of every class with key tables regenerated from the AST: from_dict(to_dict(s)) '
+             'preserves the observable state for any number of trips, the selecting wrapper reconstructs as the selected '
+             'family, JSON encode/decode is the identity on the JSON-able grammar and univariate/bivariate/Gaussian dicts lie '
+             'in it (vines provably not), generic entry points dispatch on the recorded type, constants round-trip, to_dict and '
+             'from_dict key sets agree for bivariate/Gaussian/vine/tree/edge, vine parents deserialised as copies; tied by '
+             'behavioural comparison (to_dict, pdf/cdf/ppf, seeded sample streams) through dict, JSON and pickle.',
+        note='pickle is not modelled (behavioural tie only); KDE bw_method/weights not serialised and two edge cases are '
+             'recorded findings; get_likelihood compared only where reproducible',
+        tech='Lean 4 proof over a hand-written value-grammar model + generated key tables, behavioural correspondence',
+        ref='5 C14'),
 }
 
 
